@@ -2,6 +2,7 @@ CONSTANTS MaxEntries = 2
  Allowances = {1, 2}
  Budget = 4
  Canonical = FALSE
+ Flaw_SyntheticCaseOnErrorsOnly = FALSE
  Emit = TRUE
 SPECIFICATION Spec
 INVARIANTS CountsOK VerdictOK LoopShape StopMeansPass EmitCase
